@@ -1085,7 +1085,7 @@ func runJob(e *env, fi int, fx Fixture, plus bool, rng *vh.Rng, thorough bool, b
 						}
 						if w2 := mutate(w, oi, l.Path, sh); w2 != nil && crdAdmits(kindName(o), l.Path, sh) == "" && e.validate(w2, oi) == "" {
 							nacc++
-							if taken < 3 {
+							if taken < 8 {
 								acc = append(acc, sh)
 							}
 							taken++
